@@ -25,6 +25,13 @@ SO = "repository::sigobj::SignedObject::"
 
 def run(ctx):
     f = ctx.facts()
+    K.check_revocation_lookup(ctx, f, "repository::crl")
+    ctx.rule("R-REG", "decision table by abstract interpretation / truth table equals the spec")
+    K.check_bool_table(ctx, f, "R-REG", "repository::cert::TbsCert::has_ip_resources",
+                       [(r"^IpResources::is_present\(self\.v4_resources\)$", "v4"),
+                        (r"^IpResources::is_present\((TbsCert::v6_resources\(self\)|self\.v6_resources)\)$", "v6")],
+                       lambda e: e["v4"] or e["v6"],
+                       "is true iff IPv4 or IPv6 resources are present (the ASPA profile's \"no IP resources\" test rests on it)")
     ctx.rule("R-CHK", "every success path passes a checked call to the sink (interprocedural, incl. loop form)")
     ctx.rule("R-GRD", "success requires the guard literal (graph cut on its true edges)")
     ctx.rule("R-FLOW", "operand provenance (backward slice) is the required source")
